@@ -735,6 +735,15 @@ impl Wallet {
             ));
         }
 
+        // the named output is committed to this transaction from here on: it leaves the spendable set
+        // like every output generate_slips hands out, so that neither the extra funding selected below
+        // nor the next transaction can name it again
+        self.unspent_slips.remove(&utxo_key);
+        if let Some(slip) = self.slips.get_mut(&utxo_key) {
+            slip.spent = true;
+            self.available_balance = self.available_balance.saturating_sub(slip.amount);
+        }
+
         //
         // CREATE-NFTs Transactions have the following structure
         //
